@@ -29,6 +29,7 @@ type APart struct {
 	Ord  int    `json:"ord"`
 	Fail bool   `json:"fail"`
 	Doc  string `json:"doc"` // loaders: YAML document
+	Zero bool   `json:"zero"` // runners: realised by a FIELD-LESS type (all zero-size objects share one address)
 }
 type AScenario struct {
 	ID         string  `json:"id"`
@@ -166,6 +167,35 @@ type rnP struct{ rnO }
 
 func (x *rnP) Priority() {}
 
+// ---- runners of field-less types: one per ordering class, their scenario data lives in package variables (the harness runs
+// one scenario at a time).  Go gives every zero-size allocation the same address: identity by address must not be used.
+var (
+	zlog  *alog
+	zpart [3]APart
+	zidx  [3]int
+)
+
+type rnZU struct{}
+type rnZO struct{}
+type rnZP struct{}
+
+func zrun(k int) error {
+	zlog.emit("run", map[string]any{"i": zidx[k], "ok": !zpart[k].Fail})
+	if zpart[k].Fail {
+		return errors.New("injected runner failure")
+	}
+	return nil
+}
+func (*rnZU) Naming() string { return fmt.Sprintf("r%03d", zidx[0]) }
+func (*rnZU) Run() error     { return zrun(0) }
+func (*rnZO) Naming() string { return fmt.Sprintf("r%03d", zidx[1]) }
+func (*rnZO) Run() error     { return zrun(1) }
+func (*rnZO) Order() int     { return realOrd(zpart[1].Ord) }
+func (*rnZP) Naming() string { return fmt.Sprintf("r%03d", zidx[2]) }
+func (*rnZP) Run() error     { return zrun(2) }
+func (*rnZP) Order() int     { return realOrd(zpart[2].Ord) }
+func (*rnZP) Priority()      {}
+
 // ---- closers
 type closerC struct {
 	l    *alog
@@ -232,8 +262,15 @@ func runAppScenario(sc *AScenario) []map[string]any {
 			comps = append(comps, &x)
 		}
 	}
+	zlog = l
+	usedZ := [3]bool{}
 	for i, p := range sc.Runners {
 		b := rnU{l, i + 1, p, fmt.Sprintf("r%03d", i+1)}
+		if k := map[string]int{"un": 0, "ord": 1, "prio": 2}[p.Cls]; p.Zero && !usedZ[k] {
+			usedZ[k], zpart[k], zidx[k] = true, p, i+1
+			comps = append(comps, []any{&rnZU{}, &rnZO{}, &rnZP{}}[k])
+			continue
+		}
 		switch p.Cls {
 		case "prio":
 			comps = append(comps, &rnP{rnO{b}})
